@@ -163,6 +163,10 @@ def _run_frame_once(skip, trim, kind, r, chunks, show_progress):
     try:
         with contextlib.redirect_stdout(_io.StringIO()) if show_progress else contextlib.nullcontext():
             gen = generator_with_trim(trim)(src, skip_header_bytes=skip, **kw)
+            if type(src) is io.BytesIO and len(chunks) and skip == 0:
+                # the caller looks at the file between creating the generator and iterating it (the framer starts from
+                # the beginning of a seekable file when it is first iterated)
+                src.read(3)
             for item in gen:
                 out.append(bytes(item))
                 if len(out) > cap:
